@@ -219,7 +219,9 @@ def case_fn(c):
 
 
 def main():
-    chk = Check("C07", "exploration")
+    chk = Check("C07", "other")
+    # deductive core: frame (ownership) contracts of the functions this property rests on (contracts/frames.py)
+    chk.run_frames()
     _cases = families(chk.tier, chk.seed)
     _results = driver.run_family(
         chk, "overrides-vs-spec-args", _cases, case_fn, site="C07/overrides",
